@@ -20,18 +20,27 @@ type mAcct struct {
 	Store    map[int][]byte // slot index -> value (absent = nil)
 }
 
+type mLog struct {
+	V     int // which log value
+	Tx    int // transaction context it was emitted in
+	Index uint
+}
+
 type mCore struct {
 	Acct   []mAcct
 	Bal    []*big.Int
 	Refund uint64
-	Logs   []int
-	ALAddr []bool
-	ALSlot map[[2]int]bool
-	Trans  map[[2]int]int
+	// logs of the whole block, in emission order; Index is stamped from the block-wide counter
+	Logs    []mLog
+	LogSize uint
+	CurTx   int // transaction context set by Prepare (0 = none yet: zero tx hash, zero block hash)
+	ALAddr  []bool
+	ALSlot  map[[2]int]bool
+	Trans   map[[2]int]int
 }
 
 func (c *mCore) copy() mCore {
-	n := mCore{Refund: c.Refund}
+	n := mCore{Refund: c.Refund, LogSize: c.LogSize, CurTx: c.CurTx}
 	n.Acct = make([]mAcct, len(c.Acct))
 	for i, a := range c.Acct {
 		b := a
@@ -46,7 +55,7 @@ func (c *mCore) copy() mCore {
 	for i, b := range c.Bal {
 		n.Bal[i] = new(big.Int).Set(b)
 	}
-	n.Logs = append([]int(nil), c.Logs...)
+	n.Logs = append([]mLog(nil), c.Logs...)
 	n.ALAddr = append([]bool(nil), c.ALAddr...)
 	n.ALSlot = map[[2]int]bool{}
 	for k, v := range c.ALSlot {
@@ -75,7 +84,7 @@ func (c *mCore) String() string {
 		}
 		fmt.Fprintf(&w, "}bal=%s;", c.Bal[i])
 	}
-	fmt.Fprintf(&w, "r%d;l%v;al%v;", c.Refund, c.Logs, c.ALAddr)
+	fmt.Fprintf(&w, "r%d;l%v/%d;tx%d;al%v;", c.Refund, c.Logs, c.LogSize, c.CurTx, c.ALAddr)
 	var s []string
 	for k, v := range c.ALSlot {
 		if v {
@@ -133,6 +142,8 @@ func (m *model) enabled(op Op, maxNest int) bool {
 		return op.V < len(m.snaps)
 	case kSubRefund:
 		return m.Refund >= uint64(op.V)
+	case kPrepare:
+		return len(m.snaps) == 0 // the executor prepares a transaction outside any snapshot
 	}
 	return true
 }
@@ -168,7 +179,18 @@ func (m *model) apply(op Op) {
 	case kCreate:
 		m.ensure(op.A)
 	case kAddLog:
-		m.Logs = append(m.Logs, op.V)
+		m.Logs = append(m.Logs, mLog{V: op.V, Tx: m.CurTx, Index: m.LogSize})
+		m.LogSize++
+	case kPrepare:
+		// a new transaction of the same block: tx context, a fresh access list and fresh
+		// transient storage (both per transaction); logs, the block-wide log counter and the
+		// refund counter are left as they are
+		m.CurTx = op.V
+		for i := range m.ALAddr {
+			m.ALAddr[i] = false
+		}
+		m.ALSlot = map[[2]int]bool{}
+		m.Trans = map[[2]int]int{}
 	case kAddRefund:
 		m.Refund += uint64(op.V)
 	case kSubRefund:
